@@ -120,9 +120,13 @@ CLAIMED["C02"] = dict(
     text="Lean theorems for every IR: split_block moves no symbol (at_end symbols follow the tail and designate the "
     "same interval offset) and leaves no end symbol on the head; join_blocks moves no symbol under the premise the "
     "callers establish by splitting first; remove_block sends references to the fresh proxy / next start / previous "
-    "end exactly as documented and leaves no symbol on a removed block." + EMOD_TIE + " Partial: the composition over "
-    "a whole insert/delete (needs the layout invariant 'order-adjacent = physically adjacent') is decided by the "
-    "oracle on the real output, not by a theorem.",
+    "end exactly as documented and leaves no symbol on a removed block; over whole rewrites - insert (patches with "
+    "any number of extra sections), delete, the loop of _apply_modifications and apply()'s loop over all blocks - "
+    "no symbol is left referring to a block that is no longer part of the module (invariant: symbols refer to "
+    "attached blocks, the block ordering lists attached blocks of the right section once per chain; premises "
+    "evaluated on the recorded states of every run)." + EMOD_TIE + " Partial: that every symbol keeps its *position* "
+    "over a whole insert/delete (needs the layout invariant 'order-adjacent = physically adjacent') is decided by "
+    "the oracle on the real output, not by a theorem.",
     technique=EMOD_TECH,
     design="DESIGN.md#c02",
 )
@@ -170,7 +174,8 @@ CLAIMED["C05"] = dict(
     "alignment, from the whole-block tables of its kind and from every offset-keyed table; it is in no function "
     "table and no symbol stays on it (C02/C06 theorems); on failure the return-cache context leaves ir.cfg = the "
     "caller's object with the live edges and the reference-cache context materialises every pending referent "
-    "(C20 theorems for every body and history). Oracle: a whole-IR validator written in Lean evaluated on the real "
+    "(C20 theorems for every body and history); over apply()'s whole loop every symbol referent that is a block is "
+    "attached to a byte interval of the module (symbol_referents_are_part_of_the_module). Oracle: a whole-IR validator written in Lean evaluated on the real "
     "module after apply() returns and, closure part, after the k-th patch callback raises for every k; gtirb's "
     "protobuf save/load round trip compared by canonical dump. Tie: per-operation correspondence of the Lean IR "
     "model. Partial: well-formedness of the whole output is decided by the oracle, the theorems cover the purge "
